@@ -26,7 +26,7 @@ def run_pool(scenarios, monitor=None, diff_filter=None, with_model=True):
     try:
         for sc in scenarios:
             try:
-                res = scenario.run_scenario(sc, drv, impl_only=not with_model)
+                res = scenario.run_scenario(sc, drv, impl_only=(not with_model) or bool(sc.get("impl_only")))
             except RuntimeError as e:
                 diffs.append({"what": f"model driver failed: {e}"[:300], "replay": sc})
                 drv = Driver()
